@@ -205,6 +205,9 @@ def check_interp(case, ctx):
     dx, dy = extent[0] / gpts[0], extent[1] / gpts[1]
     r0 = np.array([case["position"][0] * extent[0], case["position"][1] * extent[1]])
     r1 = r0 + np.array([case["shift_px"][0] * dx, case["shift_px"][1] * dy])
+    # probe positions are kept inside the cell (scans over a potential cover [0, extent));
+    # a whole-pixel shift modulo the cell is still a whole-pixel shift of the periodic probe
+    r1 = np.array([r1[0] % extent[0], r1[1] % extent[1]])
     red = S.reduce(scan=abtem.CustomScan(np.array([r0, r1])), ctf=ctf, lazy=case["lazy"])
     if case["lazy"]:
         red = red.compute()
